@@ -329,5 +329,99 @@ impl Sieve {
     }
 }
 pub open spec fn old_len(ps: Seq<i32>, i: int) -> int { ps.len() as int }
+
+use vstd::arithmetic::power::*;
+pub struct PrimeIter<'a> {
+    pub sieve: &'a Sieve,
+    pub n: i32,
+}
+pub open spec fn sieve_ok(s: &Sieve) -> bool {
+    &&& s.mnp@.len() >= 2 && s.mnp@.len() <= 0x7fff_fff0
+    &&& s.mnp@[1] == 0
+    &&& forall|m: int| 2 <= m < s.mnp@.len() ==> is_lpf(#[trigger] s.mnp@[m] as int, m)
+}
+impl Sieve {
+    pub fn min_prime(&self, n: i32) -> (r: i32)
+        requires 0 <= n < self.mnp@.len(),
+        ensures r == self.mnp@[n as int],
+    {
+        self.mnp[n as usize]
+    }
+}
+impl PrimeIter<'_> {
+    // body of `impl Iterator for PrimeIter::next`
+    fn next(&mut self) -> (r: Option<(i32, i32)>)
+        requires sieve_ok(old(self).sieve), 1 <= old(self).n < old(self).sieve.mnp@.len(),
+        ensures final(self).sieve == old(self).sieve, 1 <= final(self).n <= old(self).n,
+            match r {
+                None => old(self).n == 1 && final(self).n == 1,
+                Some((p, cnt)) => is_lpf(p as int, old(self).n as int) && cnt >= 1
+                    && old(self).n == final(self).n * pow(p as int, cnt as nat)
+                    && !dvd(p as int, final(self).n as int),
+            },
+    {
+        if self.n == 1 {
+            return None;
+        }
+        let mut cnt = 0;
+        let p = self.sieve.min_prime(self.n);
+        let ghost n0 = self.n as int;
+        proof { lemma_pow0(p as int); lemma_pow0(2); }
+        while self.sieve.min_prime(self.n) == p
+            invariant sieve_ok(self.sieve), self.sieve == old(self).sieve, 1 <= self.n <= n0, n0 == old(self).n, n0 < self.sieve.mnp@.len(),
+                is_lpf(p as int, n0), 0 <= (cnt as int) < 32, (cnt as int) > 0 || self.n == n0,
+                n0 == self.n * pow(p as int, (cnt as int) as nat),
+                pow(p as int, (cnt as int) as nat) >= 1, self.n * pow(p as int, (cnt as int) as nat) < 0x8000_0000,
+                pow(2, (cnt as int) as nat) <= pow(p as int, (cnt as int) as nat),
+            ensures (cnt as int) >= 1, self.n == 1 || self.sieve.mnp@[self.n as int] != p,
+            decreases self.n,
+        {
+            proof {
+                let c = (cnt as int) as nat;
+                assert(self.n >= 2);
+                assert(is_lpf(p as int, self.n as int));
+                lemma_cofactor_or_self(p as int, self.n as int);
+                lemma_pow_adds(p as int, c, 1); lemma_pow1(p as int);
+                let q = (self.n as int) / (p as int);
+                assert(n0 == q * pow(p as int, c + 1)) by(nonlinear_arith) requires n0 == self.n * pow(p as int, c), self.n == p * q, pow(p as int, c + 1) == pow(p as int, c) * p;
+                assert(pow(p as int, c + 1) >= 2 * pow(p as int, c)) by(nonlinear_arith) requires pow(p as int, c + 1) == pow(p as int, c) * p, p >= 2, pow(p as int, c) >= 1;
+                lemma_pow_positive(2, c);
+                lemma_pow_adds(2, c, 1); lemma_pow1(2);
+                assert(pow(2, c + 1) <= pow(p as int, c + 1)) by(nonlinear_arith) requires pow(2, c + 1) == pow(2, c) * 2, pow(p as int, c + 1) == pow(p as int, c) * p, pow(2, c) <= pow(p as int, c), p >= 2, pow(2, c) >= 0;
+                if c + 1 >= 32 { lemma_pow_increases(2, 31, c + 1); lemma_pow2_31(); }
+                assert(pow(2, c) >= 0) by { lemma_pow_positive(2, c); }
+                assert(q * pow(p as int, c + 1) >= pow(p as int, c + 1)) by(nonlinear_arith) requires q >= 1, pow(p as int, c + 1) >= 1;
+            }
+            cnt += 1;
+            self.n = self.n / p;
+        }
+        proof {
+            if self.n != 1 { assert(is_lpf(self.sieve.mnp@[self.n as int] as int, self.n as int)); 
+                if dvd(p as int, self.n as int) {
+                    // p | n' | n0 and p = lpf(n0) <= lpf(n') <= p  ==> lpf(n') == p, contradiction
+                    let l = self.sieve.mnp@[self.n as int] as int;
+                    assert(l <= p);
+                    lemma_dvd_mul_right(l, self.n as int, pow(p as int, (cnt as int) as nat));
+                    assert(l >= p);
+                }
+            } else { lemma_small_mod(1, p as nat); }
+        }
+        Some((p, cnt))
+    }
+}
+// 2^k <= p^k is not needed; only that cnt stays small:  2^c <= p^c <= n0 < 2^31
+proof fn lemma_pow2_31() ensures pow(2, 31) == 0x8000_0000 {
+    reveal_with_fuel(pow, 32);
+}
+proof fn lemma_pow_lower(c: nat) ensures true { }
+proof fn lemma_cofactor_or_self(p: int, m: int)
+    requires is_lpf(p, m)
+    ensures m == p * (m / p), 1 <= m / p < m
+{
+    lemma_dvd_quot(p, m);
+    let q = m / p;
+    assert(q >= 1) by(nonlinear_arith) requires m == p * q, m >= 2, p >= 2, p <= m;
+    assert(q < m) by(nonlinear_arith) requires m == p * q, p >= 2, q >= 1;
+}
 } // verus!
 fn main() {}
